@@ -49,7 +49,17 @@ def parseArch (fs : List String) : Option Arch :=
            ops := if opl = "" then [] else opl.splitOn "," }
   | _ => none
 
-def step (a : Arch) (line : String) : Arch × List String :=
+structure St where
+  a : Arch := { rsize := 8, r := 1, n := 0, m := 0, l := 0, o := 1, ops := [] }
+  pl : List String := []
+
+/-- a source line of a program: `none` for blank and comment lines -/
+def parseLine (l : String) : Option Instr :=
+  match fields l.toLower with
+  | [] => none
+  | op :: toks => if op.startsWith "#" then none else some ⟨op, toks.map parseOperand⟩
+
+def stepA (a : Arch) (line : String) : Arch × List String :=
   let fs := fields line
   match fs with
   | "A" :: rest =>
@@ -81,6 +91,20 @@ def step (a : Arch) (line : String) : Arch × List String :=
   | "I" :: [] => (a, [line, "R empty", "D -", "RA -"])
   | _ => (a, [])
 
+def step (st : St) (line : String) : St × List String :=
+  if line.startsWith "PG" then ({ st with pl := [] }, [line])
+  else if line == "PL" || line.startsWith "PL " then
+    ({ st with pl := st.pl ++ [(line.drop 3).toString] }, [line])
+  else if line.startsWith "PR" then
+    -- (tabs count as blanks for strings.Fields)
+    let src := st.pl.map fun l => parseLine (l.replace "\t" " ")
+    match asmProgram st.a src with
+    | .ok ws => (st, [(s!"PR ok " ++ " ".intercalate (ws.map toString01)).trimAsciiEnd.toString])
+    | .error .unmodelled => (st, ["PR unmodelled"])
+    | .error _ => (st, ["PR err"])
+  else
+    let (a', outs) := stepA st.a line
+    ({ st with a := a' }, outs)
+
 def main : IO Unit := do
-  let a0 : Arch := { rsize := 8, r := 1, n := 0, m := 0, l := 0, o := 1, ops := [] }
-  let _ ← foldStdin a0 step
+  let _ ← foldStdin ({} : St) step
